@@ -165,7 +165,7 @@ class Engine(
     ) -> Select:
         # Docstring inherited.
         conformed_target = self.conform(target)
-        if conformed_target.has_sort and not conformed_target.has_slice:
+        if self._has_unsliced_sort(conformed_target):
             raise RelationalAlgebraError(
                 f"Materializing relation {conformed_target} will not preserve row order."
             )
@@ -378,6 +378,36 @@ class Engine(
             return Select.apply_skip(operation._finish_apply(subquery), sort=select.sort)
         return Select.apply_skip(operation._finish_apply(select))
 
+    @staticmethod
+    def _has_unsliced_sort(select: Select) -> bool:
+        """Test whether a relation's rows are ordered by a `Sort` that no
+        `Slice` has made use of.
+
+        Parameters
+        ----------
+        select : `Select`
+            Already-conformed relation tree.
+
+        Returns
+        -------
+        has_unsliced_sort : `bool`
+            `True` if such a `Sort` is present, in the outermost query or in a
+            subquery nested below operations that only act on rows.
+        """
+        relation: Relation = select
+        while True:
+            match relation:
+                case Select():
+                    if relation.has_slice:
+                        return False
+                    if relation.has_sort:
+                        return True
+                    relation = relation.skip_to
+                case UnaryOperationRelation(target=target):
+                    relation = target
+                case _:
+                    return False
+
     def append_binary(self, operation: BinaryOperation, lhs: Relation, rhs: Relation) -> Select:
         # Docstring inherited.
         conformed_lhs = self.conform(lhs)
@@ -404,11 +434,11 @@ class Engine(
         appended : `Select`
             Conformed relation tree that includes the given operation.
         """  # noqa: D401
-        if lhs.has_sort and not lhs.has_slice:
+        if self._has_unsliced_sort(lhs):
             raise RelationalAlgebraError(
                 f"Applying binary operation {operation} to relation {lhs} will not preserve row order."
             )
-        if rhs.has_sort and not rhs.has_slice:
+        if self._has_unsliced_sort(rhs):
             raise RelationalAlgebraError(
                 f"Applying binary operation {operation} to relation {rhs} will not preserve row order."
             )
